@@ -285,6 +285,23 @@ def search(spec):
                                             bad = "harness error %s: %s" % (type(e).__name__, e)
                                         if bad:
                                             return {"found": True, "case": case, "result": bad, "evaluations": total}
+    if prop == "C08":
+        # deep patterns over a small alphabet: a dead end in one alternative of '**' / a wildcard must not cost the others
+        # their matches (strict and relaxed results agree whenever strict mode returns) - needs 4 components to show (D11)
+        for nn in range(1, 4):
+            for sh in Q.shapes(nn):
+                for path in ("/".join(t) for t in itertools.product(["a", "..", "*", "**", "a*", "."], repeat=spec.get("deep", 4))):
+                    for start in range(nn):
+                        for relax in (False, True):
+                            case = {"property": prop, "shape": sh, "names": 0, "sep": "/", "attr": "name", "start": start, "ic": False,
+                                    "relax": relax, "path": path, "history": []}
+                            total += 1
+                            try:
+                                bad = run_case(case)
+                            except Exception as e:      # noqa
+                                bad = "harness error %s: %s" % (type(e).__name__, e)
+                            if bad:
+                                return {"found": True, "case": case, "result": bad, "evaluations": total}
     return {"found": False, "evaluations": total, "nontrivial": total}
 
 
